@@ -667,7 +667,18 @@ class StorageBackend:
             try:
                 chunk, _ = chunk.split(t=time_range[1], allow_early_split=False)
             except strax.CannotSplit:
-                pass
+                # Rows straddle the end of the range. Cut at the first later time at which
+                # no row is straddled: this depends on the rows only, so loaders of data that
+                # is chunked differently on disk end at the same time.
+                t = time_range[1]
+                starts, ends = chunk.data["time"], strax.endtime(chunk.data)
+                while True:
+                    straddling = (starts < t) & (ends > t)
+                    if not straddling.any():
+                        break
+                    t = int(ends[straddling].max())
+                if t < chunk.end:
+                    chunk, _ = chunk.split(t=t, allow_early_split=False)
         return chunk
 
     def saver(self, key, metadata, **kwargs):
